@@ -24,7 +24,46 @@ CHECKS = {
                 text="Executor predicates on working storage: at most one step of adjoint data (SingleMemory exempt), loads only into empty WORK, adjoint data written to WORK only for the step just before the adjoint position, no Forward beyond the adjoint position after finalisation."),
 }
 
-PENDING = ["C05", "C06", "C07", "C09", "C10", "C13", "C14", "C15", "C16", "C17", "C18", "C19"]
+
+ORACLE_NOTE = ("Trusted base: the independent oracles in vlib/oracles.py (exhaustive Dijkstra over executor states, DP recurrences, closed forms), "
+               "cross-validated against each other inside every run (disagreement = exit 2, never a VIOLATION); the reference executor for measuring streams; "
+               "exact integer arithmetic on dyadic costs. The true optimum over ALL schedules is established only on the small exhaustive range; beyond it the "
+               "oracle is a DP/closed form validated on that range.")
+
+CHECKS.update({
+    "C05": dict(design_ref="DESIGN.md section 4 C05, 3.3", note=ORACLE_NOTE,
+                technique="property-based testing against a reference model: exhaustive optimal search (Dijkstra) + independent DP + Griewank-Walther closed form; exhaustive box + Hypothesis configs",
+                text="Forward-step totals of Multistage (every RAM/DISK split, both trajectories), Revolve (random costs) and optimal_steps_binomial are compared with the true optimum (exhaustive search over all executable schedules for n<=8/11) and with DP/closed form to n=64/400."),
+    "C06": dict(design_ref="DESIGN.md section 4 C06, 3.3", note=ORACLE_NOTE,
+                technique="property-based testing against a reference model: exhaustive optimal search over mixed schedules + independent DP; metamorphic RAM vs DISK relation",
+                text="Mixed forward-step totals compared with the optimum over all schedules whose units hold a restart checkpoint or one step's adjoint data (search n<=8/11, DP to 64/300); RAM and DISK streams must be equal up to the label; helper optimal_steps_mixed must agree."),
+    "C07": dict(design_ref="DESIGN.md section 4 C07, 3.3", note=ORACLE_NOTE,
+                technique="property-based testing: differential against exhaustive hierarchical search and independent H-Revolve/Disk-Revolve DPs, plus the metamorphic cost relations of the statement; asymmetric dyadic cost vectors by construction",
+                text="Stream cost (uf, ub, wd, rd weighted counts) of HRevolve / Revolve / DiskRevolve equals the optimum from exhaustive search (n<=7/9) and DP (n to 64/300) for asymmetric cost vectors; monotonicity in disk units, DiskRevolve<=Revolve, Periodic>=DiskRevolve checked on every group."),
+    "C09": dict(design_ref="DESIGN.md section 4 C09", technique=STREAM_TECH + "; flag model from the documented per-class pass table; pass k compared tuple-for-tuple with pass 1 and re-executed", note=STREAM_NOTE,
+                text="is_running / is_exhausted read before the first next() and after every action, streams driven 3 next() calls past their end, multi-pass classes run for 1..3 passes with each repeat compared with pass 1 and executed by the reference executor."),
+    "C13": dict(design_ref="DESIGN.md section 4 C13", note=ORACLE_NOTE,
+                technique="property-based testing: exact expected forward sweep + per-(pass, block) comparison with the Griewank-Walther closed form (validated by exhaustive search in-run)",
+                text="Forward sweep must equal the periodic DISK-checkpoint sequence exactly; every period block of every pass must be recomputed with exactly the binomial optimum for binomial_snapshots+1 units; extra checkpoints only in the binomial storage. period<=6/8 exhaustive, to 16 generated."),
+    "C14": dict(design_ref="DESIGN.md section 4 C14", note=STREAM_NOTE,
+                technique="property-based testing: metamorphic relation across all RAM/DISK splits of one (n, trajectory, s) group + harness-side stack tracking and tie-independent traffic optimum",
+                text="All splits of s produce shape-identical streams; each stack position keeps one label; RAM-labelled positions <= declared; DISK accesses equal total minus the k largest per-position access counts. Exhaustive n<=18/26, groups to n=120/400."),
+    "C16": dict(design_ref="DESIGN.md section 4 C16", note="numba cannot be installed offline: the tabulated planner is run by CPython+NumPy with the unmodified source (module attribute mixed.numba forced to a sentinel); the compiled artefact itself is not exercised.",
+                technique="property-based testing: differential between the tabulated and the memoised planner (every table entry, exhaustive) and between the streams produced on both code paths",
+                text="Every entry (kind, length, cost) of mixed_steps_tabulation(N, N-1) for N=60/160 equals mixed_step_memoization; Mixed streams with the tabulated path forced equal the default streams by value and are executable."),
+    "C17": dict(design_ref="DESIGN.md section 4 C17", note="Documented domain computed by the harness from the constructors/docstrings (DESIGN 2.1); negative unit counts and non-positive costs are outside the statement and never generated.",
+                technique="property-based testing: exhaustive box over valid AND invalid constructor tuples with a domain-membership oracle; generated valid tuples to n=160/400",
+                text="Valid tuples must construct and yield a complete stream (C02 completeness); invalid ones must raise at construction or at the first next(), never after an action. max_n in -1..8/16, all unit counts, all four storages, period -1..4."),
+    "C18": dict(design_ref="DESIGN.md section 4 C18", note="Expected equality is computed from raw .args tuples and type identity; comparison with non-action objects is outside the statement.",
+                technique="property-based testing: field predicates on every emitted action + Hypothesis-generated actions and biased action pairs (==/!= truth table, repr round-trip, len/iter/in vs range)",
+                text="Emitted actions of a stream sweep (incl. numpy-integer actions of the tabulated Mixed planner) are checked for the field predicates and value semantics; generated pairs check == / != never raise and equal type+args identity, repr round-trips, len/iteration/membership enumerate the covered steps."),
+    "C19": dict(design_ref="DESIGN.md section 4 C19", note=ORACLE_NOTE,
+                technique="property-based testing: closed-form period oracle in exact rationals, same m required for 6-14 values of n per cost vector; per-segment Revolve optimum via Griewank-Walther",
+                text="For each (RAM units, costs) group the closed-form period m is computed exactly and every stream of the group must write DISK checkpoints exactly at 0, m, 2m, ... in the forward sweep, never later, read each once, and reverse every segment with the memory-only optimum."),
+})
+
+PENDING = ["C10", "C15"]
+
 NOT_APPLICABLE = [{"property_id": p, "reason": "check designed (DESIGN.md section 4) but not yet built in this commit; property-based testing applies"} for p in PENDING if p not in CHECKS]
 
 HOOKS = {
